@@ -53,6 +53,7 @@ type Node struct {
 	Target   *Node // leafref target (may be nil = dangling)
 	path     *sdcpb.Path
 	pathSum  string
+	datums   []xpath.Datum // tree-owned leaf-list value
 	id       int
 }
 
@@ -187,8 +188,21 @@ func Generate(t *tape.Tape, tag string) *Tree {
 	for _, n := range tr.Nodes {
 		n.path = n.buildPath()
 		n.pathSum = PathString(n.path)
+		n.buildDatums()
 	}
 	return tr
+}
+
+// buildDatums creates the tree-owned value slice of a leaf-list (at generation
+// time: the tree is immutable while clients run against it).
+func (n *Node) buildDatums() {
+	n.datums = nil
+	if n.Kind == LeafList {
+		n.datums = make([]xpath.Datum, 0, len(n.List))
+		for _, s := range n.List {
+			n.datums = append(n.datums, xpath.NewLiteralDatum(s))
+		}
+	}
 }
 
 func (tr *Tree) value(t *tape.Tape, c *Node) {
@@ -275,11 +289,30 @@ func (tr *Tree) PathsIntact() (bool, string) {
 	return true, ""
 }
 
+// ValuesIntact checks that no tree-owned leaf-list value slice was modified by a caller.
+func (tr *Tree) ValuesIntact() (bool, string) {
+	for _, n := range tr.Nodes {
+		if n.datums == nil {
+			continue
+		}
+		if len(n.datums) != len(n.List) {
+			return false, fmt.Sprintf("leaf-list value of %s has %d elements, had %d", n.pathSum, len(n.datums), len(n.List))
+		}
+		for i, d := range n.datums {
+			if d == nil || d.Literal("check") != n.List[i] {
+				return false, fmt.Sprintf("leaf-list value of %s changed at index %d", n.pathSum, i)
+			}
+		}
+	}
+	return true, ""
+}
+
 // RestorePaths repairs tree-owned paths after a detected mutation so that later
 // cases in the same process start from a clean tree.
 func (tr *Tree) RestorePaths() {
 	for _, n := range tr.Nodes {
 		n.path = n.buildPath()
+		n.buildDatums()
 	}
 }
 
@@ -323,7 +356,7 @@ func (v *View) enter(method, arg string) error {
 	var err error
 	if fail {
 		c.Failed, c.Inj = true, true
-		e := &SimError{Sentinel: fmt.Sprintf("SIMFAULT-%s-%d-%s", tr.Tag, c.N, method), Injected: true, Method: method, Call: c.N}
+		e := &SimError{Sentinel: fmt.Sprintf("SIMFAULT%%d-%s-%d-%s", tr.Tag, c.N, method), Injected: true, Method: method, Call: c.N}
 		tr.Errors = append(tr.Errors, e)
 		err = e
 	}
@@ -336,7 +369,7 @@ func (v *View) natural(method, why string) error {
 	tr := v.R
 	c := &tr.Calls[len(tr.Calls)-1]
 	c.Failed = true
-	e := &SimError{Sentinel: fmt.Sprintf("SIMTREE-%s-%d-%s-%s", tr.Tag, c.N, method, why), Method: method, Call: c.N}
+	e := &SimError{Sentinel: fmt.Sprintf("SIMTREE%%s-%s-%d-%s-%s", tr.Tag, c.N, method, why), Method: method, Call: c.N}
 	tr.Errors = append(tr.Errors, e)
 	return e
 }
@@ -420,11 +453,9 @@ func (n *Node) datum() xpath.Datum {
 	case Leaf, LeafRef:
 		return scalar(n.VK, n.Lit, n.Num, n.B)
 	case LeafList:
-		ds := make([]xpath.Datum, 0, len(n.List))
-		for _, s := range n.List {
-			ds = append(ds, xpath.NewLiteralDatum(s))
-		}
-		return xpath.NewDatumSliceDatum(ds)
+		// the tree hands out its own slice every time (as a tree with a value cache does);
+		// ValuesIntact() notices a caller that reorders, truncates or overwrites it
+		return xpath.NewDatumSliceDatum(n.datums)
 	}
 	return xpath.NewNodesetDatum(nil)
 }
